@@ -484,9 +484,19 @@ def opWStream (j : Json) : R Json := do
     | .fallback i => some (i : Json)
     | .handler _ i => some (i : Json)
     | _ => none
+  -- the pass-through filter on what was written, and on its own output
+  let shape (items : List Item) : Json := Json.arr (items.map fun it => match it with
+    | .ont _ ts ss => Json.arr #["ont", jStrs ts, jStrs ss]
+    | .event _ _ _ _ => Json.arr #["event"]
+    | .foreign _ => Json.arr #["foreign"]).toArray
+  let f1 := filterOut true w.out
+  let f2 := f1.bind (filterOut true)
+  let optShape (o : Option (List Item)) : Json := match o with
+    | some items => shape items
+    | none => Json.null
   pure (Json.mkObj [("verdicts", Json.arr verdicts.toArray), ("out", Json.arr outJson.toArray),
     ("parseErr", perrJson e), ("delivered", Json.arr delivered.toArray),
-    ("types", jStrs w.types), ("sources", jStrs w.sources)])
+    ("types", jStrs w.types), ("sources", jStrs w.sources), ("filter", optShape f1), ("filter2", optShape f2)])
 
 def ratOf (j : Json) : R Rat := do
   match ← arr j with
